@@ -112,7 +112,9 @@ def _case(draw):
             else:
                 es = ["state"] + (["env"] if info.env_of(ts[0]) else []) + info.ces_of(ts[0])
                 entry = draw(st.sampled_from(es))
-            events.append(dict(ev="apply", slot=i, entry=entry, targets=list(ts)))
+            # now and then a user-sized operation is sent to a target of another size on purpose: the library
+            # refuses (or resizes); either way the operation object must behave like a fresh one afterwards
+            events.append(dict(ev="apply", slot=i, entry=entry, targets=list(ts), force=draw(st.integers(0, 4)) == 0))
     return dict(spec=spec, layout=layout, contraction=draw(st.booleans()), slots=slots, events=events)
 
 
@@ -190,7 +192,7 @@ def _twin(case, shared: bool):
         # user-sized operators only make sense on operands of the size they were built for
         sized = slot["op"]["type"] in ("fock:Custom", "custom:Custom", "custom:Expresion") or (
             slot["op"]["type"] == "comp:Expression" and any(f["kind"] == "custom" for f in slot["op"]["factors"]))
-        if sized and _tdims(w, targets) != list(slot["dims"]):
+        if sized and _tdims(w, targets) != list(slot["dims"]) and not ev.get("force"):
             trace.append(("skip",))
             continue
         if shared:
@@ -284,9 +286,11 @@ def run_case(case):
         if x[0].split(":")[0] != y[0].split(":")[0]:
             raise Violation("accept-reject", f"apply #{i}: long-lived Operation object: {x[0]}; freshly constructed equal Operation: {y[0]}", dict(site, what="status"))
         if x[0] != "applied":
-            # both rejected: states may legitimately be left differently only if rejection is clean; stop comparing
+            # both twins refused the request; what follows must still agree
             labels.append("both-" + x[0].split("@")[0][:24])
-            break
+            if x[1] == "malformed" or y[1] == "malformed":
+                break
+            continue
         if x[1] == "malformed" or y[1] == "malformed":
             break
         applied += 1
